@@ -267,6 +267,19 @@ func (w *World) enabled() []Action {
 		}
 		acts = append(acts, Action{ID: fmt.Sprintf("cfgpush|%s.n%d", sub.tag, sub.node), W: cfg.W.Reply, Do: func() { w.cl.pushConfig(sub) }})
 	}
+	// 1c. late stream-ends of streams the client closed
+	for i, st := range w.cl.pendingEnds {
+		i, st := i, st
+		if st.conn.closed || st.conn.zombie {
+			continue
+		}
+		acts = append(acts, Action{ID: "lateend|" + st.sid, W: cfg.W.LateEnd, Do: func() {
+			w.mu.Lock()
+			w.cl.pendingEnds = append(append([]*DStream{}, w.cl.pendingEnds[:i]...), w.cl.pendingEnds[i+1:]...)
+			w.cl.emitEnd(st)
+			w.mu.Unlock()
+		}})
+	}
 	// 2. DCP emissions
 	for _, s := range w.sortedStreams() {
 		s := s
